@@ -6,7 +6,7 @@
 using namespace vf;
 
 struct Unit { std::string written, eff, lead, params; int matched = -1; std::vector<long long> nums; bool numsKnown = false; std::vector<int> ints; };
-struct MCase { std::vector<GenPattern> table; std::vector<int> nReaders; std::vector<Unit> units; std::string text; std::string term; };
+struct MCase { std::vector<GenPattern> table; std::vector<int> nReaders; std::vector<Unit> units; std::string text; std::string term; bool decoy = false; };
 
 static std::string pathOf(const std::string &eff) { size_t c = eff.rfind(':'); return c == std::string::npos ? "" : eff.substr(0, c + 1); }
 
@@ -63,6 +63,7 @@ static MCase decode(Src &s) {
     c.term = s.pick(std::vector<std::string>{"\n", "\r\n", "\r"});
     for (size_t u = 0; u < c.units.size(); u++) c.text += (u ? ";" : "") + c.units[u].lead + c.units[u].written + c.units[u].params;
     c.text += c.term;
+    c.decoy = s.prob(1, 4);      // a second instrument is fed the same bytes first (fixture.hpp)
     return c;
 }
 
@@ -74,6 +75,7 @@ static std::string describe(const MCase &c) {
 
 static std::string runCase(const MCase &c, bool *nt = nullptr) {
     InstCfg k; k.bufLen = c.text.size() + 8; k.queueLen = std::max(16, (int) c.units.size() + 4); k.heapLen = std::max((size_t) 1024, c.text.size() + 2 * c.units.size() + 64);   // room for the text of one -113 per unit
+    k.decoy = c.decoy;
     for (size_t i = 0; i < c.table.size(); i++) {
         Cmd cmd; cmd.pattern = c.table[i].text;
         for (int r = 0; r < c.nReaders[i]; r++) cmd.script.readers.push_back(Reader());
